@@ -13,7 +13,7 @@ T = {
          "Theorems: the forest invariant WF (link symmetry, NoDup, bounds, acyclicity by ghost rank) holds in every state reachable by any operation list incl. invalid arguments and failing hooks; closed-form effect theorems for parent/children/del/sort; rejection theorems; every accepted parent assignment is the documented rose-tree edit (subtree cut out and grafted as last child of the new parent), children assignment a sequence of them, sort a permutation of child subtrees (Props/C01_surgery.v). Tie to the code: every run executes ~1400 random histories on the real classes and compares each step with the model inside coqc."),
  'C02': ("Coq atomicity proof (rollback exactness, restore_sorted lemma) for BaseNode/Node, BinaryNode, DAGNode heap models + fault-injection correspondence",
          "Theorems: any assignment that does not return normally leaves all links pointwise identical (all fault points: guards, duplicate name, pre/post hook); the except-branches are proved to undo the try-branches exactly. Tie: histories with 40% failing operations through the documented hook extension points on all four classes."),
- 'C03': ("Coq invariant + path/lookup theorems on the Node heap model + vm_compute correspondence (path_name, sep, depth, find_full_path)",
+ 'C03': ("Coq invariant + path/lookup theorems on the Node heap model, bridged to the exporters' path column and the search model's paths + vm_compute correspondence (path_name, sep, depth, find_full_path)",
          "Theorems: sibling-name uniqueness is an invariant of all histories; path_name/depth/sep specifications; lookup round trip for separators of any length under the guard that no separator character occurs in a name (K3 outside). Tie: random histories over related names and separators, every node's path/sep/depth and lookups compared."),
  'C20': ("Coq proof that the assertion switch only selects rejections (three heap models) + two-interpreter correspondence (BIGTREE_CONF_ASSERTIONS) + static tie re-derived from the source on every run (every read of ASSERTIONS has the modelled shape)",
          "Theorems: a step accepted with checks on is computed identically with checks off (forest, binary, DAG). Tie: valid histories are run in-process (checks on) and in a child interpreter started with BIGTREE_CONF_ASSERTIONS='' (checks off), both compared with the model and with each other, plus a battery of library calls."),
@@ -25,13 +25,13 @@ GENERIC = {
  'C07': ("Coq effect-skeleton proofs on the heap model (copy freshness, frame, independence) with refinement theorems tying the skeletons to the algorithm models + runtime snapshot correspondence", "DESIGN.md 7/C07"),
  'C08': ("Coq proofs about the shift/copy/replace model (decision table, multi-pair refinement, commuting square with the heap model of the parent setter) + vm_compute correspondence over flag combinations", "DESIGN.md 7/C08"),
  'C09': ("Coq soundness/completeness proofs of the search model + vm_compute correspondence", "DESIGN.md 7/C09"),
- 'C10': ("Coq invariant proof over DAG operation histories (heap model) + vm_compute correspondence", "DESIGN.md 7/C10"),
- 'C11': ("Coq invariant proof over BinaryNode operation histories (heap model) + vm_compute correspondence", "DESIGN.md 7/C11"),
- 'C12': ("Coq proofs that derived queries equal first-principles definitions (incl. diameter = max distance) + vm_compute correspondence", "DESIGN.md 7/C12"),
+ 'C10': ("Coq invariant proof over DAG operation histories (heap model) with exact edge effect of every operation on the abstract graph + vm_compute correspondence", "DESIGN.md 7/C10"),
+ 'C11': ("Coq invariant proof over BinaryNode operation histories (heap model) with every accepted step proved a binary-tree edit + vm_compute correspondence", "DESIGN.md 7/C11"),
+ 'C12': ("Coq proofs that derived queries equal first-principles definitions (incl. diameter = max distance), bridged to the heap model's own depth/root/siblings/leaves + vm_compute correspondence", "DESIGN.md 7/C12"),
  'C13': ("Coq proofs about relation / nested-dict / heap-list constructors + vm_compute correspondence", "DESIGN.md 7/C13"),
  'C14': ("Coq proofs that prune_tree/get_subtree keep exactly the specified nodes + vm_compute correspondence", "DESIGN.md 7/C14"),
  'C15': ("Coq proofs that the diff model marks exactly the differing paths + vm_compute correspondence", "DESIGN.md 7/C15"),
- 'C16': ("Coq graph-theoretic proofs about dag_iterator / ancestors / descendants / go_to + vm_compute correspondence", "DESIGN.md 7/C16"),
+ 'C16': ("Coq graph-theoretic proofs about dag_iterator / ancestors / descendants / go_to, instantiated on every state reachable through the DAGNode heap model + vm_compute correspondence", "DESIGN.md 7/C16"),
  'C17': ("Coq proofs of DAG export completeness and round trip + vm_compute correspondence", "DESIGN.md 7/C17"),
  'C18': ("Coq proofs about the vertical/horizontal renderers and vertex-id schemes + vm_compute correspondence + translator tie (glyph tables regenerated from bigtree/utils/constants.py and proved equal to the model's on every run)", "DESIGN.md 7/C18"),
  'C19': ("Coq proofs over exact rationals for the Reingold-Tilford model + tolerance-based correspondence with the float implementation", "DESIGN.md 7/C19"),
